@@ -48,9 +48,11 @@ def model_update(
     act: int,
     next_obs: int,
 ):
-    model.transition = model.transition.at[obs, act, next_obs].set(
-        counter.transition_counter[obs][act][next_obs]
-        / sum(counter.transition_counter[obs][act])
+    # a new observation changes the relative frequency of every successor
+    # of (obs, act), not only of the one that was just seen
+    counts = jnp.asarray(counter.transition_counter[obs][act])
+    model.transition = model.transition.at[obs, act].set(
+        counts / jnp.sum(counts)
     )
     model.reward = model.reward.at[obs, act, next_obs].set(
         np.mean(counter.reward_history[obs][act][next_obs])
